@@ -169,6 +169,7 @@ pub fn world() -> World {
 
 const TARGET: &str = "target";
 const BYSTANDER: &str = "bystander";
+const LATE: &str = "late-bystander";
 
 fn rel_of(name: &str, rot: usize) -> MethodRelationship {
   // the model's relationships mapped onto real ones; two different mappings are used
@@ -361,6 +362,18 @@ fn setup(case: &Value, iota: bool, rot: usize) -> Result<Setup, String> {
     }
     o => tool_error(&format!("bad t {o}")),
   }
+  // a second bystander that comes AFTER the target wherever the target sits, so that a "restored" document that merely has
+  // the same entries in another order differs observably (equality, JSON form, anything signed over it)
+  match s(&pre["t"]) {
+    "vm" => {
+      block_on(doc.generate(&w.storage, LATE, MethodScope::VerificationMethod)).map_err(|e| format!("setup late bystander: {e}"))?;
+    }
+    "emb" => {
+      let sc = scope_of(s(&pre["embRel"]), rot);
+      block_on(doc.generate(&w.storage, LATE, sc)).map_err(|e| format!("setup late bystander: {e}"))?;
+    }
+    _ => {}
+  }
   if s(&pre["t"]) != "absent" {
     let m = doc.core().resolve_method(TARGET, None).ok_or("target missing after setup")?;
     let digest = MethodDigest::new(m).map_err(|e| e.to_string())?;
@@ -371,6 +384,7 @@ fn setup(case: &Value, iota: bool, rot: usize) -> Result<Setup, String> {
   if s(&pre["t"]) == "vm" {
     for r in &refs {
       doc.attach(TARGET, rel_of(r, rot))?;
+      doc.attach(LATE, rel_of(r, rot))?;
     }
   } else if !refs.is_empty() {
     // dangling references can only come from deserialisation
@@ -404,6 +418,7 @@ fn replay_one(case: &Value, iota: bool, rot: usize) -> Result<Vec<(String, Value
     return Err(format!("harness could not build the pre-state: {pre_abs}"));
   }
   let pre_norm = doc.normalised();
+  let pre_exact = doc.to_value();
   let by_key_count = block_on(w.jwk.count());
   let by_kid_count = block_on(w.kid.count());
   // arm the faults
@@ -473,6 +488,9 @@ fn replay_one(case: &Value, iota: bool, rot: usize) -> Result<Vec<(String, Value
     "err" => {
       if doc.normalised() != pre_norm {
         diffs.push(("err_changed_document".into(), pre_norm.clone(), doc.normalised()));
+      } else if doc.to_value() != pre_exact {
+        // the same entries in another order: the document no longer equals the one the caller had
+        diffs.push(("err_reordered_document".into(), pre_exact.clone(), doc.to_value()));
       }
       if total_keys != by_key_count || total_kids != by_kid_count
         || has(&keys, "kT") != has_s(&pre_keys, "kT") || has(&kids, "dT") != has_s(&pre_kids, "dT")
